@@ -69,6 +69,8 @@ type parserState struct {
 	// querySatisfied is true if both path and value of any queries passed to
 	// consumeAny are satisfied.
 	querySatisfied bool
+	// complete is true if the top-level JSON value was parsed to its end.
+	complete bool
 }
 
 // query holds information about a combination of {"key": "val"} that we're trying
@@ -123,6 +125,11 @@ func Parse(queryType string, raw []byte) (parsed, inspected, firstToken int, que
 
 	qs := queries[queryType]
 	got := p.consumeAny(raw, qs, 0)
+	if !p.complete {
+		// The top-level value did not parse: nothing was parsed, even though
+		// consumeAny reports the bytes it consumed before giving up.
+		got = 0
+	}
 	return got, p.ib, p.firstToken, p.querySatisfied
 }
 
@@ -131,6 +138,7 @@ func (p *parserState) reset() {
 	p.currPath = p.currPath[0:0]
 	p.firstToken = TokInvalid
 	p.querySatisfied = false
+	p.complete = false
 }
 
 func (p *parserState) consumeSpace(b []byte) (n int) {
@@ -437,6 +445,9 @@ func (p *parserState) consumeAny(b []byte, qs []query, lvl int) (n int) {
 			return 0
 		}
 		return n
+	}
+	if lvl == 0 {
+		p.complete = true
 	}
 	n += rv
 	n += p.consumeSpace(b[n:])
